@@ -67,6 +67,7 @@ fn main() {
     let mut rng = common::Rng::new(seed);
     match prop {
         "c15" => c15::run(&mut rng, n, &mut out),
+        "c15big" => c15::run_big(&mut rng, n, &mut out),
         "c01" => c01::run(&mut rng, n, &mut out, "c01"),
         "c17" => c01::run(&mut rng, n, &mut out, "c17"),
         "c02" => c02::run(&mut rng, n, &mut out),
